@@ -1,13 +1,19 @@
 //! Seeded generators of WORLD cases.  Everything is derived from mix(VERIF_SEED, property, k).
 
-use super::{Op, OpK, Want, WorldCase, WorldProp};
+use super::{IPart, Op, OpK, Want, WorldCase, WorldProp};
 use crate::prng::{mix, Rng};
 use crate::val::V;
 use std::collections::BTreeMap;
 
 pub fn case(prop: WorldProp, k: u64, seed: u64, thorough: bool) -> WorldCase {
     match prop {
-        WorldProp::C11 => gen11(mix(seed, "C11", k)),
+        WorldProp::C11 => {
+            if k % 4 == 3 {
+                gen11_interleave(mix(seed, "C11i", k))
+            } else {
+                gen11(mix(seed, "C11", k))
+            }
+        }
         WorldProp::C09 => {
             if k < c09_enumerated() {
                 gen09_enumerated(k, mix(seed, "C09e", k))
@@ -384,6 +390,135 @@ fn gen11(seed: u64) -> WorldCase {
     WorldCase { world: "C11".into(), clients, start_ns: instant(&mut r), label: "history".into(), ops }
 }
 
+/// C11, executions in flight at once: m clients, each with its own clone of one context and
+/// its own binding set (x0 unique per client, so a result names the bindings it was computed
+/// from), run programs that call the yield function `yf` at top level, in macro bodies, in
+/// call arguments, behind references to other stored programs (so that a client is parked
+/// several frames deep); the scheduler interleaves them at those calls.
+fn gen11_interleave(seed: u64) -> WorldCase {
+    let mut r = Rng::new(seed);
+    let m = match r.weighted(&[5, 3, 3]) {
+        0 => 2 + r.usize(3),
+        1 => 5 + r.usize(4),
+        _ => 9 + r.usize(8),
+    };
+    let clients: Vec<[u8; 16]> = (0..m).map(|_| r.bytes16()).collect();
+    let uniq = r.range(100, 999);
+    let mut ops: Vec<Op> = vec![Op { t: 0, k: OpK::NewCtx { c: 0 } }];
+    let mut names: Vec<String> = vec![];
+    let add = |ops: &mut Vec<Op>, names: &mut Vec<String>, name: &str, src: String| {
+        ops.push(Op { t: 0, k: OpK::Add { c: 0, name: name.to_string(), src, must_read: false } });
+        if !names.iter().any(|n| n == name) {
+            names.push(name.to_string());
+        }
+    };
+    // a reference chain k0 <- k1 <- .. so that a client parks up to `d` frames deep
+    let deep = r.chance(1, 3);
+    let d = if deep { 8 + r.usize(7) } else { 1 + r.usize(5) };
+    for i in 0..d {
+        let src = if i == 0 {
+            "[x0, yf(x0)]".to_string()
+        } else {
+            match r.usize(4) {
+                0 => format!("[k{}[0], yf(k{}[1])]", i - 1, i - 1),
+                1 => format!("[1].map(v, k{})[0]", i - 1),
+                2 => format!("[yf(x0), k{}[1]]", i - 1),
+                _ => format!("k{}", i - 1),
+            }
+        };
+        add(&mut ops, &mut names, &format!("k{}", i), src);
+    }
+    let top = format!("k{}", d - 1);
+    let templates: [&str; 14] = [
+        "[x0, yf(x0), x0]",
+        "yf(x0) == x0",
+        "[1, 2, 3].map(v, [yf(v), x0])",
+        "x1.map(v, yf(v))",
+        "x1.filter(v, yf(v) != x0)",
+        "[yf(1), TOP, yf(2), x0]",
+        "coalesce(yf(null), x0)",
+        "has(x2.f) ? yf(x2.f) : yf(x0)",
+        "f'{yf(x0)}-{x0}'",
+        "x1.reduce(acc, e, acc + yf(e), 0)",
+        "x1.all(v, yf(v) >= 0) && yf(true)",
+        "{'a': yf(x0), 'b': x0}",
+        "[TOP, TOP]",
+        "x1.map(v, x1.map(w, yf(v) + w))",
+    ];
+    let np = 2 + r.usize(4);
+    for i in 0..np {
+        let src = if r.chance(1, 4) {
+            // a generated expression with yield calls sprinkled in
+            let refs: Vec<String> = names.clone();
+            let e = gen_src(&mut r, &refs, false);
+            format!("[yf(x0), {}, yf(1)]", e)
+        } else {
+            r.pick(&templates).replace("TOP", &top)
+        };
+        add(&mut ops, &mut names, &format!("y{}", i), src);
+    }
+    // per client: a clone of the context, a binding set with its own x0
+    for j in 0..m {
+        let by = if r.chance(1, 2) { j } else { 0 };
+        ops.push(Op { t: by, k: OpK::CloneCtx { from: 0, to: 10 + j } });
+        ops.push(Op { t: j, k: OpK::NewB { b: j } });
+        ops.push(Op { t: j, k: OpK::Bind { b: j, name: "x0".into(), val: V::Str(format!("client{}#{}", j, uniq)) } });
+        let n = 1 + r.usize(4);
+        ops.push(Op { t: j, k: OpK::Bind { b: j, name: "x1".into(), val: V::List((0..n).map(|q| V::Int(j as i64 * 10 + q as i64)).collect()) } });
+        if r.chance(1, 2) {
+            let mut mm = BTreeMap::new();
+            mm.insert("f".to_string(), V::Int(j as i64));
+            ops.push(Op { t: j, k: OpK::Bind { b: j, name: "x2".into(), val: V::Map(mm) } });
+        }
+        ops.push(Op { t: j, k: OpK::BindFunc { b: j, name: "yf".into(), ret: V::Other("yield".into()) } });
+    }
+    let rounds = 1 + r.usize(3);
+    for _ in 0..rounds {
+        // sometimes a sequential exec or a mutation between two rounds
+        if r.chance(1, 3) {
+            let j = r.usize(m);
+            ops.push(Op { t: j, k: OpK::Exec { c: 10 + j, name: r.pick(&names).clone(), b: j, times: 1, keys: r.bytes16(), minimal: r.chance(1, 2) } });
+        }
+        if r.chance(1, 4) {
+            let j = r.usize(m);
+            ops.push(Op { t: j, k: OpK::Bind { b: j, name: "x0".into(), val: V::Str(format!("client{}#{}r", j, uniq)) } });
+        }
+        let mut order: Vec<usize> = (0..m).collect();
+        for i in (1..order.len()).rev() {
+            order.swap(i, r.usize(i + 1));
+        }
+        let take = if r.chance(2, 3) { m } else { 2 + r.usize(m - 1) };
+        // deep runs often park every client at the bottom of the reference chain
+        let same_prog = if deep && r.chance(1, 2) { Some(top.clone()) } else if r.chance(1, 3) { Some(r.pick(&names).clone()) } else { None };
+        let mut parts: Vec<IPart> = order[..take.min(m)]
+            .iter()
+            .map(|j| IPart { t: *j, c: 10 + *j, name: same_prog.clone().unwrap_or_else(|| r.pick(&names).clone()), b: *j })
+            .collect();
+        // same-thread re-entrancy: a part whose context belongs to client j is run by another
+        // client, nested inside that client's own parked exec (with that client's bindings)
+        if r.chance(1, 2) && parts.len() >= 2 {
+            let n = 1 + r.usize(parts.len() / 2);
+            for _ in 0..n {
+                let a = r.usize(parts.len());
+                let b = r.usize(parts.len());
+                if a != b {
+                    let host = parts[b].t;
+                    parts[a].t = host;
+                    parts[a].b = host;
+                }
+            }
+        }
+        let sched: Vec<u8> = match r.weighted(&[3, 4, 2, 2]) {
+            0 => vec![],
+            1 => (0..r.usize(64)).map(|_| r.below(256) as u8).collect(),
+            2 => vec![255; 8 + r.usize(64)],
+            _ => (0..r.usize(48)).map(|_| if r.chance(1, 2) { 0 } else { r.below(256) as u8 }).collect(),
+        };
+        ops.push(Op { t: 0, k: OpK::Interleave { parts, sched, keys: r.bytes16() } });
+    }
+    WorldCase { world: "C11".into(), clients, start_ns: instant(&mut r), label: "interleave".into(), ops }
+}
+
 // ---------------------------------------------------------------------------------------------
 // C09 (time clause)
 // ---------------------------------------------------------------------------------------------
@@ -612,7 +747,9 @@ enum Sc {
     ProgUnderSameBindings,
     Unbound,
     FuncVsType { ty: &'static str },
-    FuncVsMacro { mac: &'static str },
+    /// `method`: the call is written in receiver position (`x0.map(v, v)`), resolved by
+    /// the interpreter's member-call path instead of the free-call path
+    FuncVsMacro { mac: &'static str, method: bool },
     FieldVsMethod { method: &'static str },
     ReplaceProgram { through_ref: bool },
     Rebind,
@@ -622,6 +759,67 @@ enum Sc {
     Loop { macro_kind: usize, len: usize, depth: usize },
     Dag,
     RandomGraph,
+    /// rho-shaped graph: a path c0 -> c1 -> .. -> c(n-1) whose last node references
+    /// `back` (a cycle) or nothing; `constructs[i]` is the construct of the edge leaving ci
+    Rho { n: usize, back: Option<usize>, constructs: Vec<&'static str> },
+    /// DAG over n <= 4 nodes: bit (i, j), i < j, of `mask` is the edge gi -> gj
+    DagEnum { n: usize, mask: u32, construct: &'static str },
+}
+
+/// every assignment of the 8 referencing constructs to `edges` edges
+fn construct_vectors(edges: usize) -> Vec<Vec<&'static str>> {
+    let mut out: Vec<Vec<&'static str>> = vec![vec![]];
+    for _ in 0..edges {
+        let mut next = vec![];
+        for v in out.iter() {
+            for c in CONSTRUCTS.iter() {
+                let mut w = v.clone();
+                w.push(*c);
+                next.push(w);
+            }
+        }
+        out = next;
+    }
+    out
+}
+
+/// all rho-shaped reference graphs reachable from the entry with up to `max_n` nodes and
+/// every construct per edge (`full_n`: node counts enumerated with every construct vector;
+/// larger ones with one construct for all edges)
+fn rho_scenarios(max_n: usize, full_n: usize) -> Vec<Sc> {
+    let mut v = vec![];
+    for n in 1..=max_n {
+        let mut backs: Vec<Option<usize>> = vec![None];
+        for b in 0..n {
+            backs.push(Some(b));
+        }
+        for back in backs {
+            let edges = n - 1 + if back.is_some() { 1 } else { 0 };
+            if n <= full_n {
+                for cs in construct_vectors(edges) {
+                    v.push(Sc::Rho { n, back, constructs: cs });
+                }
+            } else {
+                for c in CONSTRUCTS.iter() {
+                    v.push(Sc::Rho { n, back, constructs: vec![*c; edges] });
+                }
+            }
+        }
+    }
+    v
+}
+
+fn dag_scenarios() -> Vec<Sc> {
+    let mut v = vec![];
+    for n in 2..=4usize {
+        let pairs = n * (n - 1) / 2;
+        for mask in 0..(1u32 << pairs) {
+            for c in ["bare", "operand", "macro_body", "macro_range", "call_arg", "has", "coalesce", "fstring"] {
+                v.push(Sc::DagEnum { n, mask, construct: c });
+            }
+        }
+    }
+    v
 }
 
 fn scenarios(thorough: bool) -> Vec<Sc> {
@@ -637,7 +835,12 @@ fn scenarios(thorough: bool) -> Vec<Sc> {
     for t in ["int", "uint", "double", "string", "bool", "bytes", "duration", "timestamp", "type"] {
         v.push(Sc::FuncVsType { ty: t });
     }
-    v.push(Sc::FuncVsMacro { mac: "coalesce" });
+    v.push(Sc::FuncVsMacro { mac: "coalesce", method: false });
+    v.push(Sc::FuncVsMacro { mac: "has", method: false });
+    for m in ["all", "exists", "exists_one", "filter", "map", "reduce"] {
+        v.push(Sc::FuncVsMacro { mac: m, method: true });
+        v.push(Sc::FuncVsMacro { mac: m, method: false });
+    }
     for m in ["size", "contains", "map", "filter", "all"] {
         v.push(Sc::FieldVsMethod { method: m });
     }
@@ -663,6 +866,15 @@ fn scenarios(thorough: bool) -> Vec<Sc> {
             }
         }
     }
+    // the statement's own bound: every reference graph of up to 4 programs reachable from the
+    // entry.  With one reference per program these are the rho shapes (a path that ends or
+    // closes a cycle at any of its nodes), enumerated with every construct on every edge
+    // (quick: complete up to 3 programs, 4 programs with one construct for all edges);
+    // with fan-out these are the DAGs over a fixed topological order (every edge subset),
+    // one construct for all edges.  Cyclic graphs with fan-out are excluded: the depth
+    // guard bounds the stack, not the time (2^32 evaluations).
+    v.extend(rho_scenarios(4, if thorough { 4 } else { 3 }));
+    v.extend(dag_scenarios());
     v
 }
 
@@ -760,11 +972,18 @@ fn build12(sc: &Sc, seed: u64) -> WorldCase {
             add(&mut ops, "main", format!("{}(x0)", ty));
             expect(&mut ops, &mut r, "main", Want::Val(tag("func", ty, uniq)));
         }
-        Sc::FuncVsMacro { mac } => {
-            label = "call-function-before-macro".into();
+        Sc::FuncVsMacro { mac, method } => {
+            label = format!("call-function-before-macro{}", if *method { ":method" } else { "" });
             ops.push(Op { t: t_exec, k: OpK::BindFunc { b: 0, name: mac.to_string(), ret: tag("func", mac, uniq) } });
-            bind(&mut ops, "x0", V::Int(3));
-            add(&mut ops, "main", format!("{}(x0, 4)", mac));
+            if *method {
+                // non-constant receiver: folding of rebound built-ins is outside the statement
+                bind(&mut ops, "x0", V::List(vec![V::Int(1), V::Int(2)]));
+                add(&mut ops, "main", format!("x0.{}(x1, x1)", mac));
+                bind(&mut ops, "x1", V::Int(5));
+            } else {
+                bind(&mut ops, "x0", V::Int(3));
+                add(&mut ops, "main", if *mac == "has" { "has(x0)".to_string() } else { format!("{}(x0, 4)", mac) });
+            }
             expect(&mut ops, &mut r, "main", Want::Val(tag("func", mac, uniq)));
         }
         Sc::FieldVsMethod { method } => {
@@ -903,6 +1122,76 @@ fn build12(sc: &Sc, seed: u64) -> WorldCase {
             };
             add(&mut ops, "main", src);
             expect(&mut ops, &mut r, "main", Want::Val(want));
+        }
+        Sc::Rho { n, back, constructs } => {
+            ops.push(Op { t: t_exec, k: OpK::BindFunc { b: 0, name: "idf".into(), ret: V::Other("arg0".into()) } });
+            label = format!("rho:{}:{}", n, match back { Some(b) => format!("cycle{}", n - b), None => "path".into() });
+            let mut expected = String::new();
+            let mut decl: Vec<usize> = (0..*n).collect();
+            for i in (1..decl.len()).rev() {
+                decl.swap(i, r.usize(i + 1));
+            }
+            let mut texts = vec![];
+            for i in 0..*n {
+                let t = format!("t{}#{}:", i, uniq);
+                expected.push_str(&t);
+                let next = if i + 1 < *n { Some(i + 1) } else { *back };
+                match next {
+                    Some(j) => texts.push(edge(constructs[i], &t, &format!("c{}", j))),
+                    None => texts.push(format!("'{}end'", t)),
+                }
+            }
+            expected.push_str("end");
+            for i in decl {
+                add(&mut ops, &format!("c{}", i), texts[i].clone());
+            }
+            let want = if back.is_some() { Want::Fail } else { Want::Val(V::Str(expected)) };
+            expect(&mut ops, &mut r, "c0", want);
+        }
+        Sc::DagEnum { n, mask, construct } => {
+            ops.push(Op { t: t_exec, k: OpK::BindFunc { b: 0, name: "idf".into(), ret: V::Other("arg0".into()) } });
+            label = format!("dag:{}", n);
+            let mut edges: Vec<Vec<usize>> = vec![vec![]; *n];
+            let mut bit = 0;
+            for i in 0..*n {
+                for j in (i + 1)..*n {
+                    if mask & (1 << bit) != 0 {
+                        edges[i].push(j);
+                    }
+                    bit += 1;
+                }
+            }
+            fn val(i: usize, e: &Vec<Vec<usize>>, uniq: i64) -> String {
+                let mut s = format!("n{}#{}", i, uniq);
+                for j in e[i].iter() {
+                    s.push('(');
+                    s.push_str(&val(*j, e, uniq));
+                    s.push(')');
+                }
+                s
+            }
+            let mut decl: Vec<usize> = (0..*n).collect();
+            for i in (1..decl.len()).rev() {
+                decl.swap(i, r.usize(i + 1));
+            }
+            for i in decl {
+                let mut src = format!("'n{}#{}'", i, uniq);
+                for j in edges[i].iter() {
+                    let inner = match *construct {
+                        "bare" => format!("g{}", j),
+                        "operand" => format!("(true ? g{} : 'never')", j),
+                        "macro_body" => format!("[1].map(v, g{})[0]", j),
+                        "macro_range" => format!("[g{}].map(v, v)[0]", j),
+                        "call_arg" => format!("idf(g{})", j),
+                        "has" => format!("(has(g{}) ? g{} : 'absent')", j, j),
+                        "coalesce" => format!("coalesce(g{}, 'null')", j),
+                        _ => format!("f'{{g{}}}'", j),
+                    };
+                    src.push_str(&format!(" + '(' + {} + ')'", inner));
+                }
+                add(&mut ops, &format!("g{}", i), src);
+            }
+            expect(&mut ops, &mut r, "g0", Want::Val(V::Str(val(0, &edges, uniq))));
         }
         Sc::Dag | Sc::RandomGraph => {
             ops.push(Op { t: t_exec, k: OpK::BindFunc { b: 0, name: "idf".into(), ret: V::Other("arg0".into()) } });
